@@ -348,7 +348,7 @@ def classify(T, key, pool, tstr):
         feats.add("zero-length-array-of-unhashable-no-panic")
     if any(G.only_blank_fields_unhashable(T, key, v) for v in pool):
         feats.add("blank-unhashable-field-no-panic")
-    prio = ["blank-unhashable-field-no-panic"]       # the classes recorded in known_findings.d/C15.txt; everything else gets a generic signature
+    prio = []       # the classes recorded in known_findings.d/C15.txt; everything else gets a generic signature
     return next((p for p in prio if p in feats), None)
 
 
@@ -567,4 +567,14 @@ def fixed_probes():
               "a key whose dynamic type is uncomparable only because of a blank struct field does not panic (Go: hash of unhashable type)",
               head + "type B struct {\n\ta int\n\t_ []int\n}\n\nfunc main() {\n\tdefer func() { println(recover() != nil) }()\n\tm := map[interface{}]int{}\n"
               "\tvar k interface{} = B{a: 1}\n\tm[k] = 1\n\tprintln(len(m))\n}\n"))
+    P.append(("stale-comparable-flag-no-panic",
+              "a composite key type built over a named struct type before that type's init() keeps comparable = true: [0]C, [1]B, struct{x B} "
+              "as interface-typed keys do not panic (Go: hash of unhashable type)",
+              head + "type B struct {\n\ta int\n\t_ []int\n}\n\ntype C struct {\n\ta int\n\ts []int\n}\n\n"
+              "func try(name string, f func()) {\n\tdefer func() { println(name, recover() != nil) }()\n\tf()\n}\n\n"
+              "func main() {\n\tm := map[interface{}]int{}\n"
+              "\ttry(\"[0]C\", func() { var k interface{} = [0]C{}; m[k] = 1 })\n"
+              "\ttry(\"[1]B\", func() { var k interface{} = [1]B{}; m[k] = 1 })\n"
+              "\ttry(\"struct{x B}\", func() { var k interface{} = struct{ x B }{}; m[k] = 1 })\n"
+              "\tprintln(len(m))\n}\n"))
     return P
